@@ -77,7 +77,7 @@ var (
 	evidence   = flag.String("evidence", "", "evidence output file")
 	replayDir  = flag.String("replay-dir", "/verif/replays", "where replay files go")
 	trace      = flag.Bool("trace", false, "trace first path")
-	maxPaths   = flag.Int("max-paths", 200000, "max paths per harness")
+	maxPaths   = flag.Int("max-paths", 0, "path budget per harness (0 = 200000 in the quick tier, 2000000 in the thorough tier)")
 	maxSteps   = flag.Int("max-steps", 5000000, "max SSA instructions per path")
 	timeoutMs  = flag.Int("query-timeout", 60000, "solver timeout per query (ms)")
 	noReplay   = flag.Bool("no-replay", false, "skip native replay (debug)")
@@ -164,6 +164,12 @@ func selectHarnesses(ov map[string][]byte) (map[string]string, []string) {
 
 func run() int {
 	t0 := time.Now()
+	if *maxPaths == 0 {
+		*maxPaths = 200000
+		if *tier == "thorough" {
+			*maxPaths = 2000000
+		}
+	}
 	os.Setenv("VERIF_TIER", *tier)
 	ov, ovPaths, err := overlayFor()
 	if err != nil {
